@@ -386,7 +386,7 @@ def cases_c07(rng, thorough):
             space = rng.sample(space, 400 if thorough else 60)
         for gf in space:
             cases.append(mux_case([op], G.key_stream(rng.choice([0, 2]), ts_items(gf)),
-                                  timescale=rng.choice([None, 'datetime', 'datetime-days', 'datetime-ms', 'datetime-dst'])))
+                                  timescale=rng.choice([None, 'datetime', 'datetime-days', 'datetime-ms', 'datetime-dst', 'datetime-aware'])))
     for _ in range(400 if thorough else 100):    # longer, interleaved keys, to_list
         a, i, cl, inc = rng.choice(cfgs)
         inner = rng.choice([[], [G.op_simple('to_list')], [{'op': 'count', 'reduce': True}]])
@@ -399,7 +399,7 @@ def cases_c07(rng, thorough):
                 lts.append((idx, ts_items(gf)))
         pipe = [op] if rng.random() < 0.6 else [G.op_group_by('fstmodc', 2, [op])]
         cases.append(mux_case(pipe, G.schedule(rng, lts),
-                              timescale=rng.choice([None, 'datetime', 'datetime-days', 'datetime-ms', 'datetime-dst'])))
+                              timescale=rng.choice([None, 'datetime', 'datetime-days', 'datetime-ms', 'datetime-dst', 'datetime-aware'])))
     cases += shared_inner_cases(
         rng, 24 if thorough else 8,
         lambda r, inn: G.op_time_split(r.choice([-1, 2, 3]), r.choice([-1, 1, 2]), True, r.random() < 0.5, inn),
@@ -497,6 +497,20 @@ def cases_c08(rng, thorough):
         t = G.op_tee(rng.choice(joins), [pre[b] + shared for b in range(nb)])
         lts = rand_lifetimes(rng, rng.choice([1, 2]), 6, vals=range(-1, 4), reuse=0.4)
         cases.append(mux_case([t], G.schedule(rng, lts), share_ops=True))
+    # a branch that fails on some item: the error event leaves the tee_map whichever branch it
+    # comes from (and is then ignored, mapped, or ends the stream)
+    for _ in range(60 if thorough else 16):
+        nb = rng.choice([2, 3])
+        brs = [rng.choice([[G.op_map('addc', 10)], [], [{'op': 'count', 'reduce': False}]]) for _ in range(nb)]
+        brs[rng.randrange(nb)] = rng.choice([[G.op_map('failIf', 2)], [G.op_filter('failIfP', 2)],
+                                             [G.op_scan('failAdd', I(0), c=2)]])
+        t = G.op_tee(rng.choice(joins), brs)
+        after = rng.choice([[G.op_simple('ignore')], [{'op': 'errmap', 'f': fn('errconst', 77)}], None])
+        xs = G.ints([rng.choice([1, 2, 3]) for _ in range(rng.randint(1, 6))])
+        if after is None:
+            cases.append(src_case([t], xs))
+        else:
+            cases.append(mux_case([t] + after, G.key_stream(rng.choice([0, 3]), xs)))
     # the same tee_map operator object applied more than once: in two branches of an outer
     # tee_map, at two positions of a pipeline, inside two keyers (one application each)
     for _ in range(60 if thorough else 16):
